@@ -26,6 +26,7 @@ Sub-checks (case kinds):
 import itertools
 import json
 import math
+import os
 import random as _random
 import re
 import sys
@@ -585,8 +586,44 @@ BIND_WHAT = ['variable', 'predefined', 'function', 'builtin', 'callVariable', 'c
              'callFunction', 'once', 'journal']
 
 
+def interpreter_settings():
+    """process-wide settings an evaluation has no business changing (every other thread and parser lives under them too)"""
+    import decimal
+    import locale
+    import signal
+    import sys
+    import threading
+    out = {'recursionlimit': sys.getrecursionlimit(), 'switchinterval': sys.getswitchinterval(),
+           'decimal_prec': decimal.getcontext().prec, 'decimal_rounding': decimal.getcontext().rounding,
+           'locale': locale.setlocale(locale.LC_ALL), 'tz': os.environ.get('TZ'), 'int_max_str_digits': getattr(sys, 'get_int_max_str_digits', lambda: None)(),
+           'stack_size': threading.stack_size(), 'dont_write_bytecode': sys.dont_write_bytecode}
+    try:
+        out['sigalrm'] = repr(signal.getsignal(signal.SIGALRM))
+    except (ValueError, AttributeError):
+        pass
+    return out
+
+
+def run_globals(c):
+    """the settings before, DURING (seen from a host function the formula calls, from a listener and from a nested evaluation)
+    and after an evaluation"""
+    common.load_repo()
+    import hotxlfp
+    P = hotxlfp.Parser()
+    seen = []
+    P.set_function('PROBE', lambda *a: (seen.append(interpreter_settings()), 1)[1])
+    P.set_function('NEST', lambda t: P.parse(t)['result'])
+    P.on('callCellValue', lambda cell, setter: (seen.append(interpreter_settings()), setter(2)))
+    before = interpreter_settings()
+    recs = [canon_rec(P.parse(f)) for f in c['formulas']]
+    after = interpreter_settings()
+    return {'globals': True, 'before': before, 'seen': seen, 'after': after, 'recs': recs, 'formulas': c['formulas']}
+
+
 def run_bind(c):
     """-> dict of observations"""
+    if c['what'] == 'globals':
+        return run_globals(c)
     common.load_repo()
     import hotxlfp
     what, name, val = c['what'], c['name'], c['value']
@@ -644,6 +681,15 @@ def run_bind(c):
 
 
 def judge_bind(c, obs):
+    if obs.get('globals'):
+        for when, snap in [('after the evaluations', obs['after'])] + [('during an evaluation', x) for x in obs['seen']]:
+            for k, v in obs['before'].items():
+                if snap.get(k) != v:
+                    return ('evaluating %r changes the process-wide interpreter setting %s: %r before, %r %s (other threads and parsers '
+                            'run under it too)' % (obs['formulas'], k, v, snap.get(k), when))
+        if not obs['seen']:
+            return 'the probe formulas %r called neither the host function nor the listener' % (obs['formulas'],)
+        return None
     what, val = c['what'], c['value']
     unset = obs['before']          # what a parser that never heard of the binding answers
     for who in ('Q_before', 'Q_after', 'Q_before_again'):
@@ -1693,6 +1739,8 @@ def cases(rng, ctx):
     names = {'variable': ['rate', 'x_1', 'Foo', 'sum'], 'predefined': ['TRUE', 'NULL'], 'function': ['FOO', 'My.Fn', 'F_2'],
              'builtin': ['SUM', 'MAX'], 'callVariable': ['ghost', 'rate'], 'callCellValue': ['-'], 'callRangeValue': ['-'],
              'callFunction': ['-'], 'once': ['-'], 'journal': ['PI()*2', 'TRUE()', 'SUM(1,2)+PI()', 'IF(FALSE(),1,2)']}
+    out.append({'kind': 'bind', 'what': 'globals', 'name': '-', 'value': 0,
+                'formulas': ['PROBE()+1', 'A1+PROBE()', 'SUM(A1:B2)+PROBE(1,2)', 'NEST("PROBE()+A1")*2', '1/0+PROBE()', 'PROBE(']})
     for what in BIND_WHAT:
         for name in names[what]:
             for val in [rng.randrange(2, 10 ** 6), 'v%d' % rng.randrange(100)]:
@@ -2021,6 +2069,8 @@ def nontrivial(c, impl_ans):
         e = impl_ans['effective']
         return sum(1 for a, b in zip(e, e[1:]) if a != b) >= 2
     if kind == 'bind':
+        if impl_ans.get('globals'):
+            return len(impl_ans['seen']) > 0
         # the binding is live on P itself (otherwise its invisibility on Q says nothing)
         return impl_ans['P'] != impl_ans['before'] or impl_ans['calls_by_P'] > 0
     return True
